@@ -29,6 +29,7 @@ type c05Case struct {
 	Hits        int
 	Transport   string // instant | gosched | sleep
 	TargetYield bool
+	TargetSleep bool // the targeter blocks 0..3 ms, longer for earlier calls (a slow lazy target source)
 	Procs       int
 	TimeoutMS   int // > 0: client timeout; every HangEvery-th request hangs until the timeout cancels it
 	HangEvery   int
@@ -95,6 +96,15 @@ func evalC05(c c05Case) (overlaps int64, err error) {
 	var targeter vegeta.Targeter = vegeta.NewStaticTargeter(tgt)
 	if c.TargetYield {
 		targeter = func(t *vegeta.Target) error { runtime.Gosched(); *t = tgt; return nil }
+	}
+	if c.TargetSleep {
+		var calls int64
+		targeter = func(t *vegeta.Target) error {
+			n := atomic.AddInt64(&calls, 1)
+			time.Sleep(time.Duration(3000-(n*37)%3000) * time.Microsecond)
+			*t = tgt
+			return nil
+		}
 	}
 	atk := vegeta.NewAttacker(vegeta.Client(client), vegeta.Workers(uint64(c.MaxWorkers)), vegeta.MaxWorkers(uint64(c.MaxWorkers)))
 	before := time.Now()
@@ -176,6 +186,15 @@ func TestC05Order(t *testing.T) {
 		}
 		if c.Transport == "sleep" && c.Hits > 20000 {
 			c.Hits = 20000
+		}
+		if rapid.IntRange(0, 4).Draw(t, "tsleep") == 0 {
+			c.TargetSleep = true
+			if c.MaxWorkers < 4 {
+				c.MaxWorkers = 4
+			}
+			if c.Hits > 150*c.MaxWorkers {
+				c.Hits = 150 * c.MaxWorkers // each hit costs up to 3 ms of targeter time
+			}
 		}
 		overlaps, err := evalC05(c)
 		nt := overlaps >= 1000
